@@ -71,8 +71,12 @@ func VerifH_C06_parseInt() {
 	var r int32
 	script := "parseInt(s)"
 	if verifChoose(2) == 1 {
-		r = verifNondetInt32()
-		vm.Set("r", r)
+		// the radix is any double with |r| < 2^63, NaN or an infinity
+		// (ToInt32 of larger magnitudes is decided by the C05 kernel harness)
+		rf := verifNondetFloat64()
+		verifAssume(rf != rf || math.Abs(rf) < 9223372036854775808.0 || math.Abs(rf) > math.MaxFloat64)
+		r = refInt32(rf)
+		vm.Set("r", rf)
 		script = "parseInt(s, r)"
 	}
 	v, ok := verifRun(vm, script)
